@@ -414,6 +414,20 @@ class AccGen:
                 out.append(Metadata(**kw))
             r.shuffle(out)
             return out
+        if n >= 2 and r.random() < 0.08:  # a key holding None in some slices and ABSENT in others (any sort order)
+            out = []
+            for i in range(n):
+                d = {"lob": "auto"}
+                ld = {}
+                if r.random() < 0.6:
+                    d["opt"] = None
+                if r.random() < 0.5:
+                    ld["lopt"] = None
+                if r.random() < 0.3:
+                    d["n"] = r.choice([1, 2])
+                out.append(Metadata(country=r.choice(["A", "B", "C", "D"]) + str(i), details=d, loss_details=ld))
+            r.shuffle(out)
+            return out
         if r.random() < 0.2:  # everything shared except several detail keys, some keys missing
             out = []
             for i in range(n):
